@@ -295,6 +295,29 @@ func sameModuloAttrOrder(a, b string) bool {
 	return true
 }
 
+// movedAttrs lists, for two serialisations that are equal modulo attribute order, one entry per tag
+// whose attributes stand at different positions: element name and the keys concerned
+// ("a:rel,target").
+func movedAttrs(a, b string) []string {
+	ta, tb := tokenize(a), tokenize(b)
+	var out []string
+	for i := range ta {
+		if !isTag(ta[i]) {
+			continue
+		}
+		keys := map[string]bool{}
+		for j := range ta[i].Attr {
+			if ta[i].Attr[j].Key != tb[i].Attr[j].Key || ta[i].Attr[j].Val != tb[i].Attr[j].Val {
+				keys[ta[i].Attr[j].Key] = true
+			}
+		}
+		if len(keys) > 0 {
+			out = append(out, ta[i].Name+":"+strings.Join(sortedKeys(keys), ","))
+		}
+	}
+	return out
+}
+
 func inC20Class(m *Model) bool {
 	if allowsRawText(m) || m.comments || m.rewriter >= 0 {
 		return false
@@ -360,6 +383,13 @@ func genC20(t *rapid.T) *Case {
 				if rapid.IntRange(0, 2).Draw(t, "allow_"+a) != 0 {
 					attrs = append(attrs, a)
 				}
+			}
+			if rapid.IntRange(0, 3).Draw(t, "crossorigin") == 0 {
+				// link gets two forced attributes: rel and crossorigin
+				if rapid.Bool().Draw(t, "allow_crossorigin") {
+					attrs = append(attrs, "crossorigin")
+				}
+				c.Spec.Ops = append(c.Spec.Ops, Op{Kind: "RequireCrossOriginAnonymous", B: true, ValRe: -1})
 			}
 			c.Spec.Ops = append(c.Spec.Ops, Op{Kind: "AllowAttrs", Attrs: attrs, Scope: "els", Names: []string{"a", "area", "link"}, ValRe: -1},
 				Op{Kind: "AllowStandardURLs", ValRe: -1})
@@ -483,11 +513,26 @@ func checkC20(c *Case, r *Rec) error {
 		}
 	}
 	twice := p.Sanitize(once)
-	if twice != once && c.Kind != "strict-replay" && sameModuloAttrOrder(once, twice) && knownClassEnabled("C20", "attribute_order_only") {
-		// known finding D23: rel/target added by the sanitiser come out in a different order on the
-		// second pass; nothing but the order of attributes inside start tags differs
-		r.Excluded("attribute_order_only")
-		return nil
+	if twice != once && c.Kind != "strict-replay" && sameModuloAttrOrder(once, twice) {
+		// known findings D23 / D56: two attributes the sanitiser adds itself, one of which the policy
+		// also allows, come out in a different order on the second pass; nothing but the order of
+		// these two attributes inside start tags of that element differs
+		known := map[string]string{"a:rel,target": "attribute_order_only", "link:crossorigin,rel": "attribute_order_only_link_crossorigin"}
+		var classes []string
+		for _, mv := range movedAttrs(once, twice) {
+			cl, ok := known[mv]
+			if !ok || !knownClassEnabled("C20", cl) {
+				classes = nil
+				break
+			}
+			classes = append(classes, cl)
+		}
+		if len(classes) > 0 {
+			for _, cl := range classes {
+				r.Excluded(cl)
+			}
+			return nil
+		}
 	}
 	if twice != once {
 		return violation(twice, "C20: Sanitize(Sanitize(x)) differs from Sanitize(x): first pass %s, second pass %s", q(trunc(once, 300)), q(trunc(twice, 300)))
